@@ -1,6 +1,7 @@
 (* C05 — decoder totality on arbitrary bytes. Statements only. *)
 From Coq Require Import List NArith ZArith.
-From TarsV Require Import Base.Hex Codec.Wire Codec.Skip Codec.Prim Codec.GenCodec Codec.Corr Codec.GenProofs.
+From TarsV Require Import Base.Hex Codec.Wire Codec.Skip Codec.Prim Codec.GenCodec Codec.Corr Codec.GenProofs
+  Codec.RoundTrip Codec.RoundTripProofs Codec.TotalProofs Codec.RoundTripExamples Gen.Schemas.
 Import ListNotations.
 Open Scope N_scope.
 
@@ -15,8 +16,41 @@ Theorem C05_total_refuted :
   decode e 0 [121; 0; 255] = DPanic site_makeslice /\ decode e 0 [121; 2; 64; 0; 0; 0] = DHuge.
 Proof. exact GenProofs.no_panic_refuted_witness. Qed.
 
+(* proved, for every schema environment, every struct type from which no vector or fixed array is reachable
+   (safe_ty: the sites of the recorded findings excluded), every target and EVERY byte string: decoding yields
+   a value or an error - no panic, no over-allocation, no fuel exhaustion *)
+Theorem C05_total_without_lists : forall e n sid prior bs,
+  safe_ty n e (TStruct sid) = true -> (tneed n e (TStruct sid) <= 64)%nat ->
+  total_out (decode_into e sid prior bs).
+Proof. exact TotalProofs.decode_total. Qed.
+Theorem C05_no_panic_without_lists : forall e n sid prior bs,
+  safe_ty n e (TStruct sid) = true -> ok_out (decode_into e sid prior bs).
+Proof. exact TotalProofs.decode_no_panic. Qed.
+
+(* proved, for every struct type with a finite type graph (vectors, arrays, maps, nested structs included) and
+   EVERY byte string: the model's linear fuel 4*len+64 never runs out (termination of the modelled decoder with
+   a number of steps linear in the input) *)
+Theorem C05_fuel_sufficient : forall e n sid prior bs,
+  tfin n e (TStruct sid) = true -> (tneed n e (TStruct sid) <= 64)%nat -> decode_into e sid prior bs <> DFuel.
+Proof. exact TotalProofs.decode_fuel. Qed.
+(* the skipping functions alone: linear fuel suffices on every input, and they never move the cursor backwards *)
+Theorem C05_skip_fuel_sufficient : forall fuel d ty bs, (2 * length bs + 2 <= fuel)%nat ->
+  fst (skip_field fuel d ty bs) <> SFuel /\ (length (snd (skip_field fuel d ty bs)) <= length bs)%nat.
+Proof. exact (fun fuel => proj1 (TotalProofs.skip_fuel fuel)). Qed.
+
+(* instantiated on the schemas regenerated from the tree *)
+Theorem C05_code_schemas_fuel : forall sid prior bs, tfin 8 env0 (TStruct sid) = true -> decode_into env0 sid prior bs <> DFuel.
+Proof. exact RoundTripExamples.env0_fuel. Qed.
+Theorem C05_code_schemas_total : forall sid prior bs, safe_ty 8 env0 (TStruct sid) = true ->
+  total_out (decode_into env0 sid prior bs).
+Proof. exact RoundTripExamples.env0_total. Qed.
+Theorem C05_code_schemas_safe_types :
+  filter (fun sid => safe_ty 8 env0 (TStruct sid)) (seq 0 (length env0))
+  = [0; 1; 2; 3; 4; 5; 6; 8; 9; 10; 11; 12; 13; 14; 15; 17; 20; 21; 22; 23; 27]%nat.
+Proof. exact RoundTripExamples.env0_safe_types. Qed.
+
 (* proved: the scalar layer of the decoder never panics or over-allocates, for all bytes *)
-Theorem C05_scalar_layer_safe_partial : forall fuel tag req t prior bs,
+Theorem C05_scalar_layer_safe : forall fuel tag req t prior bs,
   match dec_scalar fuel tag req t prior bs with DPanic _ | DHuge => False | _ => True end.
 Proof. exact GenProofs.dec_scalar_safe. Qed.
 
@@ -26,5 +60,12 @@ Theorem C05_skip_depth_limit : forall fuel ty bs, (ty = tMAP \/ ty = tLIST \/ ty
 Proof. exact GenProofs.skip_depth_limit. Qed.
 
 Print Assumptions C05_total_refuted.
-Print Assumptions C05_scalar_layer_safe_partial.
+Print Assumptions C05_total_without_lists.
+Print Assumptions C05_no_panic_without_lists.
+Print Assumptions C05_fuel_sufficient.
+Print Assumptions C05_skip_fuel_sufficient.
+Print Assumptions C05_code_schemas_fuel.
+Print Assumptions C05_code_schemas_total.
+Print Assumptions C05_code_schemas_safe_types.
+Print Assumptions C05_scalar_layer_safe.
 Print Assumptions C05_skip_depth_limit.
